@@ -1096,6 +1096,9 @@ func (lbc *LoadBalancerController) sync(task task) {
 		} else {
 			if err := lbc.configurator.ReloadForBatchUpdates(lbc.enableBatchReload); err != nil {
 				nl.Errorf(lbc.Logger, "error reloading for batch updates: %v", err)
+				// the handlers of the batch reported success while reloads were held back:
+				// tell the resources that their configuration was not applied
+				lbc.updateResourcesStatusAndEvents(lbc.configuration.GetResources(), configs.Warnings{}, err)
 			}
 		}
 
